@@ -1048,8 +1048,14 @@ def A17_mass_guess(repo, clause):
     for b in t.body:
         if isinstance(b, ast.Assign) and any(x is c for x in ast.walk(b)):
             tgt = b.targets[0].id if isinstance(b.targets[0], ast.Name) else None
+    # the guess may go through a temporary inside the try body (guessed = guess(..); elements = [guessed[i] ...]): the handler replaces the LAST name the body assigns
+    body_targets = [b.targets[0].id for b in t.body if isinstance(b, ast.Assign) and isinstance(b.targets[0], ast.Name)]
+    handler_targets = {b.targets[0].id for h in t.handlers for b in h.body if isinstance(b, ast.Assign) and isinstance(b.targets[0], ast.Name)}
+    if tgt not in handler_targets and body_targets and body_targets[-1] in handler_targets:
+        tgt = body_targets[-1]
     ok = False
     recognised = False
+    robust_ = False
     detail = "fallback handler not recognised"
 
     def _one_based_strings(v):
@@ -1107,7 +1113,20 @@ def A17_mass_guess(repo, clause):
                     ok = "mass" in src and first == 1
                     detail = "handler replaces the elements of ALL types by their type numbers: one string per entry of %s, numbered from %d%s" % (
                         src, first, "" if ok else (" (type ids are 1-based: the fallback labels are off by one)" if first != 1 else " (not the mass table)"))
-    obs.append(Ob("A17", clause, ld, t.handlers[0] if t.handlers else t, ok, detail, slot="fallback", positive=recognised and not ok, undecided=not recognised))
+                    # the counted table must have one entry per atom TYPE: a name that (also) holds the distinct masses at this point gives one label per distinct mass
+                    if ok and re.fullmatch(r"\w+", src):
+                        try:
+                            ds_ = ld.rd.defs_at(b, src)
+                        except Exception:
+                            ds_ = []
+                        for d_ in ds_:
+                            dv = getattr(d_, "value", None)
+                            if dv is not None and any(isinstance(x, ast.Call) and (call_name(x) in ("unique", "set", "fromkeys", "frozenset")) for x in ast.walk(dv)):
+                                ok = False
+                                robust_ = True
+                                detail = ("the fallback numbers the entries of `%s`, which at this point holds the DISTINCT masses (`%s`): two atom types with the same mass get one label, "
+                                          "and the element list no longer has one entry per atom type" % (src, ast.unparse(d_)[:60]))
+    obs.append(Ob("A17", clause, ld, t.handlers[0] if t.handlers else t, ok, detail, slot="fallback", positive=("robust" if robust_ else (recognised and not ok)), undecided=not recognised))
     return obs
 
 
@@ -1385,14 +1404,27 @@ def A18_cli_wiring(repo, clause):
         return out
     for which, f, var in (("input", load, "inputpath"), ("output", save, "outputpath")):
         lits = None
+
+        def _lit_list(n):
+            """the literal suffix list a membership test of the path variable compares with (looked through one local name)"""
+            if not (isinstance(n, ast.Compare) and isinstance(n.ops[0], (ast.In, ast.NotIn)) and var in ast.unparse(n.left)):
+                return None
+            cmp_ = n.comparators[0]
+            if isinstance(cmp_, ast.Name):
+                try:
+                    cmp_ = expand(fn, cmp_)
+                except Exception:
+                    return None
+            return cmp_ if isinstance(cmp_, (ast.List, ast.Tuple, ast.Set)) else None
         for n in fn.own_nodes():
-            if isinstance(n, ast.Compare) and isinstance(n.ops[0], (ast.In, ast.NotIn)) and var in ast.unparse(n.left) and isinstance(n.comparators[0], (ast.List, ast.Tuple, ast.Set)):
-                lits = [e.value for e in n.comparators[0].elts if isinstance(e, ast.Constant)]
+            ll = _lit_list(n)
+            if ll is not None:
+                lits = [e.value for e in ll.elts if isinstance(e, ast.Constant)]
         dt = dispatch_types(f)
         ok = lits is not None and all(s.startswith(".") and s[1:] in dt for s in lits)
         # the test reads the LAST suffix of the path, as the dispatcher's os.path.splitext does
         for n in fn.own_nodes():
-            if isinstance(n, ast.Compare) and isinstance(n.ops[0], (ast.In, ast.NotIn)) and var in ast.unparse(n.left) and isinstance(n.comparators[0], (ast.List, ast.Tuple, ast.Set)):
+            if _lit_list(n) is not None:
                 l_ = n.left
                 is_suffix = isinstance(l_, ast.Attribute) and l_.attr == "suffix" and isinstance(l_.value, ast.Name) and l_.value.id == var
                 other_suffix = (not is_suffix) and "suffixes" in ast.unparse(l_)
@@ -1402,7 +1434,14 @@ def A18_cli_wiring(repo, clause):
                                   if other_suffix else " (not the plain .suffix)")),
                               slot="suffix-attr:%s" % which, positive=other_suffix, undecided=not is_suffix and not other_suffix))
         obs.append(Ob("A18", clause, fn, fn.node, ok, "%s suffixes %s are all dispatched by Atoms.%s (%s)" % (which, lits, f.name, sorted(dt)),
-                      construct="%s.suffix in %s" % (var, lits), slot="suffix:%s" % which, positive=lits is not None and bool(dt), depends=(f,)))
+                      construct="%s.suffix in %s" % (var, lits), slot="suffix:%s" % which, positive="robust" if (lits is not None and len(dt) >= 2) else False, depends=(f,)))
+        # and the other way round: every type the dispatcher handles natively is routed to it (a native format sent to ASE loses charges, types and terms - or cannot be read at all)
+        if lits is not None and len(dt) >= 2:
+            missing = sorted(t for t in dt if "." + t not in lits)
+            obs.append(Ob("A18", clause, fn, fn.node, not missing,
+                          "%s: every file type Atoms.%s dispatches (%s) is routed to it by the command line%s" % (
+                              which, f.name, sorted(dt), "" if not missing else ": NOT %s - such a file goes to ase.io instead" % missing),
+                          construct="%s.suffix in %s" % (var, lits), slot="suffix-complete:%s" % which, positive="robust", depends=(f,)))
     return obs
 
 
